@@ -70,8 +70,16 @@ class CsvfileReader(AbstractReader):
 
         self.dialect = "excel"
         if self.fp.seekable():
-            self.dialect = csv.Sniffer().sniff(self.fp.read(1024))
+            sample = self.fp.read(1024)
             self.fp.seek(0)
+            # sniff complete lines only: a row that is cut off in the middle has fewer columns than the others
+            if "\n" in sample:
+                sample = sample[: sample.rindex("\n") + 1]
+            try:
+                self.dialect = csv.Sniffer().sniff(sample)
+            except csv.Error:
+                # nothing to tell delimiters apart by (e.g. a single column): keep the default dialect
+                pass
         self.reader = csv.reader(self.fp, dialect=self.dialect)
 
         if isinstance(fields, str):
